@@ -63,7 +63,7 @@ type c17 struct{}
 func init() { core.Register(c17{}) }
 func (c17) ID() string { return "C17" }
 
-var c17Kinds = []string{"Seal", "Open", "Encrypt", "Decrypt", "NewCipher", "NewGCM", "SignHashed", "VerifyHashed", "Verify", "DerivePublic", "GenerateKey", "SM3"}
+var c17Kinds = []string{"Seal", "Open", "Encrypt", "Decrypt", "NewCipher", "NewGCM", "SignHashed", "VerifyHashed", "Verify", "DerivePublic", "GenerateKey", "SM3", "CheckOnCurve"}
 
 func (c17) Plan(tier string) core.Plan {
 	if L2Enabled {
@@ -318,6 +318,9 @@ func c17Run(op c17Op, w *c17World, yield func(site int)) (out string) {
 		k := op.K % len(w.priv)
 		ok, err := sm2.Verify(w.ids[k], w.px[k], w.py[k], w.msgs[op.M%len(w.msgs)], w.rs[k], w.ss[k])
 		return fmt.Sprint("verifyid:", ok, err != nil)
+	case "CheckOnCurve":
+		k := op.K % len(w.priv)
+		return fmt.Sprint("oncurve:", sm2.CheckOnCurve(w.px[k], w.py[k]), sm2.CheckOnCurve(w.py[k], w.px[k]))
 	case "DerivePublic":
 		k := op.K % len(w.priv)
 		x, y, err := sm2.DerivePublic(w.priv[k])
@@ -481,7 +484,7 @@ func (c17) Execute(sc core.Script, keep bool) *core.Result {
 				mark(aeadUsers, shared.ctA[op.C%s.NSealed], t)
 			case "Seal":
 				mark(aeadUsers, shared.ctA[op.C%s.NSealed], t)
-			case "SignHashed", "VerifyHashed", "Verify", "DerivePublic":
+			case "SignHashed", "VerifyHashed", "Verify", "DerivePublic", "CheckOnCurve":
 				mark(keyUsers, op.K%s.NKeys, t)
 			}
 		}
